@@ -41,6 +41,7 @@ Example c01_order_once_nonvacuous :
   let c := conn_new 2 1 true 8 in
   conn_inv c [] /\ exists c' r, c_try_send c 3 0 = Val (c', r) /\ idxs c' = [0].
 Proof. split; [apply conn_new_inv|]. do 2 eexists. split; reflexivity. Qed.
+Print Assumptions c01_order_once_nonvacuous.
 
 (* ---- overflow: exactly the oldest are evicted ------------------------------------------- *)
 (* every send on a connection is one push on the reference bounded FIFO of send indices .. *)
@@ -78,6 +79,7 @@ Print Assumptions c01_overflow_hands_back.
 
 Example c01_overflow_exact_nonvacuous : ref_push_all true 2 [] [5; 6; 7] = [6; 7].
 Proof. reflexivity. Qed.
+Print Assumptions c01_overflow_exact_nonvacuous.
 
 (* ---- loss only as documented ------------------------------------------------------------- *)
 (* world level: a connection that holds undelivered samples for a subscriber that stays registered
@@ -119,6 +121,7 @@ Print Assumptions c01_loss_only_reported_partial.
 Example c01_loss_only_reported_nonvacuous :
   exists c r, c_try_send (conn_new 1 1 false 4) 0 0 = Val (c, SOk None) /\ c_try_send c 1 1 = Val (c, r) /\ r = SBufferFull.
 Proof. do 2 eexists. repeat split. Qed.
+Print Assumptions c01_loss_only_reported_nonvacuous.
 
 (* the back-pressure handler decides between discard, failure and blocking; with
    RetryUntilDelivered and a handler that always retries / follows the strategy the call does not
